@@ -735,3 +735,41 @@ PROPS["C05"] = {
     "outside": "the iterative factorisations (Householder reductions, Hessenberg reduction, QR algorithm, eigensystem, SVD, matrix square roots): their convergence-dependent post-conditions are not encoded; conditioning/rounding",
     "assumptions": ["floats read as reals; denominators and radicands assumed in the domain", "counterexamples replayed natively with relative tolerance 1e-6"],
 }
+
+# ----------------------------------------------------------------------------- C06
+def c06_jobs(tier):
+    jobs = []
+    quick = tier == "quick"
+
+    def J(f, a, **kw):
+        jobs.append(dict({"pkg": ZZ, "func": f, "args": a, "mode": "real", "intmode": "int"}, **kw))
+    for routine in range(5):
+        for n in ((2, 3) if routine != 3 else (2,)):
+            J("verif_C06_fastgeneric", [routine, n], mode="fp")
+    if not quick:
+        J("verif_C06_fastgeneric", [3, 3], mode="fp")
+    for routine in range(4):
+        J("verif_C06_derivative", [routine, 2])
+    J("verif_C06_derivative", [2, 3])
+    if not quick:
+        J("verif_C06_derivative", [1, 3])
+        J("verif_C06_derivative", [3, 3])
+    J("verif_C06_magicvalues", [2])
+    return jobs
+
+
+PROPS["C06"] = {
+    "overlay": [RT, ("zzverif/c04.go", "zzverif/c04.go"), ("zzverif/c06.go", "zzverif/c06.go")],
+    "patterns": ["./zzverif"],
+    "mode": "real", "intmode": "int",
+    "jobs": c06_jobs,
+    "reach": ["fastgeneric", "derivative", "magicvalues"],
+    "replay_tol": 1e-6,
+    "job_budget_ms": {"quick": 150000, "thorough": 1500000},
+    "selftest_vars": [],
+    "bounds": {"quick": "fast path = generic path for Cholesky (plain, LDL, forced PD) and Gauss-Jordan (+ upper triangular) on symbolic 2x2 and 3x3 inputs, fp interpretation (UF-first then bit-precise), every pivot / rejection path; "
+                        "derivative identities with one symbolic parameter: inverse, Cholesky, MdotM on 2x2, determinant on 2x2 and 3x3 (real interpretation)",
+               "thorough": "3x3 Cholesky / MdotM derivative identities, 3x3 Gauss-Jordan differential"},
+    "outside": "QR algorithm, eigensystem, SVD, Gram-Schmidt, Hessenberg on magic matrices; order-2 derivatives; Jacobian/Hessian helpers",
+    "assumptions": ["floats read as reals in the derivative identities; denominators and radicands assumed in the domain"],
+}
